@@ -1,4 +1,96 @@
 import AvroModel
+import AvroProofs.Lemmas.Rabin
+/-!
+# C12 — Parsing Canonical Form and fingerprints
+
+The Rabin fingerprint is CRC-64-AVRO of the canonical form (proved for every byte string: `Avro.rabin_eq_crc64`,
+also used by C18, re-exported here).  About the form itself: a primitive name is written
+quoted; an object with more than one entry is determined by its relevant entries alone (docs,
+aliases, defaults and every other attribute do not influence it); the PRIMITIVES rule is applied
+only to objects with exactly one entry, which is why a primitive that carried a logical type keeps
+its object form (`logical_primitive_not_reduced`, the open finding).
+-/
 namespace Avro.C12
 open Avro
+
+/-- the table-driven fingerprint of the crate equals the bit-serial CRC-64-AVRO of the
+specification, for every byte string -/
+theorem rabin_is_crc64 (data : Bytes) : rabinState data = crc64Avro data := Avro.rabin_eq_crc64 data
+
+/-- PRIMITIVES / STRINGS: a type name is written as a quoted string -/
+theorem pcf_name (f : Nat) (s : Bytes) (d : List Bytes) : pcf (f+1) (.str s) d = some (pcfString s, d) := by
+  simp [pcf]
+
+/-- STRIP: in an object that has more than one entry, an entry whose key is not relevant for the
+node's kind changes nothing -/
+theorem pcfEntries_skip_irrelevant (g : Json → List Bytes → Option (Bytes × List Bytes)) (n : Nat) (hn : n ≠ 1)
+    (relevant : List Bytes) (name : Option Bytes) (k : Bytes) (v : Json) (rest : List (Bytes × Json))
+    (d : List Bytes) (acc : List (Nat × Bytes)) (hk : relevant.contains k = false) :
+    pcfEntries g n relevant name ((k, v) :: rest) d acc = pcfEntries g n relevant name rest d acc := by
+  have h1 : (n == 1) = false := by simpa using hn
+  simp only [pcfEntries, h1, Bool.false_and, Bool.false_eq_true, if_false, hk, Bool.not_false, if_true]
+
+/-- STRIP, for the whole object: with more than one entry, only the relevant entries matter -/
+theorem pcfEntries_only_relevant (g : Json → List Bytes → Option (Bytes × List Bytes)) (n : Nat) (hn : n ≠ 1)
+    (relevant : List Bytes) (name : Option Bytes) :
+    ∀ (es : List (Bytes × Json)) (d : List Bytes) (acc : List (Nat × Bytes)),
+      pcfEntries g n relevant name es d acc =
+      pcfEntries g n relevant name (es.filter (fun kv => relevant.contains kv.1)) d acc
+  | [], _, _ => rfl
+  | (k, v) :: rest, d, acc => by
+    cases hk : relevant.contains k with
+    | false =>
+      rw [pcfEntries_skip_irrelevant g n hn relevant name k v rest d acc hk]
+      simp only [List.filter_cons, hk, Bool.false_eq_true, if_false]
+      exact pcfEntries_only_relevant g n hn relevant name rest d acc
+    | true =>
+      have h1 : (n == 1) = false := by simpa using hn
+      simp only [List.filter_cons, hk, if_true]
+      simp only [pcfEntries, h1, Bool.false_and, Bool.false_eq_true, if_false, hk, Bool.not_true]
+      cases fieldPos k with
+      | none => exact pcfEntries_only_relevant g n hn relevant name rest d acc
+      | some pos =>
+        simp only
+        split
+        · exact pcfEntries_only_relevant g n hn relevant name rest d _
+        · split
+          · split
+            · split
+              · split
+                · exact pcfEntries_only_relevant g n hn relevant name rest d _
+                · rfl
+              · rfl
+            · split
+              · exact pcfEntries_only_relevant g n hn relevant name rest d _
+              · rfl
+            · rfl
+          · split
+            · split
+              · exact pcfEntries_only_relevant g n hn relevant name rest _ _
+              · rfl
+            · split
+              · exact pcfEntries_only_relevant g n hn relevant name rest _ _
+              · rfl
+            · split
+              · exact pcfEntries_only_relevant g n hn relevant name rest _ _
+              · rfl
+            · rfl
+
+/-- what the relevant entries are: exactly the attributes the specification lists per kind -/
+theorem relevant_record : relevantKeys (some b!"record") = [b!"name", b!"type", b!"fields"] := by decide
+theorem relevant_enum : relevantKeys (some b!"enum") = [b!"name", b!"type", b!"symbols"] := by decide
+theorem relevant_fixed : relevantKeys (some b!"fixed") = [b!"name", b!"type", b!"size"] := by decide
+theorem relevant_array : relevantKeys (some b!"array") = [b!"type", b!"items"] := by decide
+theorem relevant_map : relevantKeys (some b!"map") = [b!"type", b!"values"] := by decide
+
+/-- witness of the open finding: a `long` carrying a logical type keeps its object form
+(`{"type":"long"}`), while the plain `long` is written `"long"` -/
+theorem logical_primitive_not_reduced :
+    canonicalForm 10 .tsMicros = some b!"{\"type\":\"long\"}" ∧ canonicalForm 10 .long = some b!"\"long\"" := by
+  constructor <;> rfl
+
+/-- precision and scale of a decimal, and the logical type, are stripped -/
+theorem decimal_stripped (p sc : Nat) : canonicalForm 10 (.decimal p sc none) = some b!"{\"type\":\"bytes\"}" := by
+  rfl
+
 end Avro.C12
